@@ -16,7 +16,7 @@ import os
 import shutil
 import tempfile
 
-from mc import env
+from mc import core, env
 
 BOUNDS = {
     'quick': '6-OID universe (singles and all ordered pairs = 36 contents) x 2 modules; BFS depth 3 from the empty index '
@@ -386,4 +386,86 @@ class CompileThenIndex(object):
         finally:
             shutil.rmtree(d, ignore_errors=True)
 
-FAMILIES = [Bfs(), Pairs(), BuildIndex(), TwoCompilers(), CompileThenIndex()]
+class FailedThenGood(object):
+    name = 'failed-module-next-to-good-ones'
+    describe = ('one MibCompiler (JSON): a module that FAILS in the code generator after it has declared nodes (3 kinds of failure, '
+                'nodes before / after the failing declaration, with / without a MODULE-COMPLIANCE) compiled next to a good module - '
+                'same call in either order, or an earlier call - then buildIndex(): the good module is listed under the OIDs it '
+                'defines and under no OID of the failed module; the summary of the good module holds its own OIDs only')
+
+    FAILS = {'empty-range-bound': "BadRange ::= INTEGER (''H..'ff'H)\n",
+             'bits-defval-of-unknown-bit': ('badObj OBJECT-TYPE SYNTAX BITS { a(0) } MAX-ACCESS read-write STATUS current DESCRIPTION "d" '
+                                            'DEFVAL { { zz } } ::= { badRoot 7 }\n'),
+             'oid-defval-of-unknown-node': ('badObj OBJECT-TYPE SYNTAX OBJECT IDENTIFIER MAX-ACCESS read-write STATUS current '
+                                            'DESCRIPTION "d" DEFVAL { nowhereNode } ::= { badRoot 7 }\n')}
+
+    def blocks(self, tier):
+        return [{'f': f} for f in sorted(self.FAILS)]
+
+    def cases(self, block, tier):
+        for nodes_first in (0, 1):
+            for compl in (0, 1):
+                for how in ('same-call-bad-first', 'same-call-good-first', 'earlier-call'):
+                    yield {'f': block['f'], 'nodes_first': nodes_first, 'compl': compl, 'how': how}
+
+    def run_case(self, case):
+        from pysmi.compiler import MibCompiler
+        from pysmi.writer.localfile import FileWriter
+        nodes = 'badRoot OBJECT IDENTIFIER ::= { enterprises 111 }\nbadLeaf OBJECT IDENTIFIER ::= { badRoot 1 }\n'
+        compl = ''
+        imports = ['enterprises', 'OBJECT-TYPE']
+        if case['compl']:
+            compl = ('badGroup OBJECT-GROUP OBJECTS { badLeafObj } STATUS current DESCRIPTION "d" ::= { badRoot 3 }\n'
+                     'badLeafObj OBJECT-TYPE SYNTAX INTEGER MAX-ACCESS read-only STATUS current DESCRIPTION "d" ::= { badRoot 4 }\n'
+                     'badCompl MODULE-COMPLIANCE STATUS current DESCRIPTION "d" MODULE MANDATORY-GROUPS { badGroup } ::= { badRoot 5 }\n')
+        fail = self.FAILS[case['f']]
+        body = (nodes + compl + fail) if case['nodes_first'] else ('badRoot OBJECT IDENTIFIER ::= { enterprises 111 }\n' + fail +
+                                                                  'badLeaf OBJECT IDENTIFIER ::= { badRoot 1 }\n' + compl)
+        bad = ('BAD-MIB DEFINITIONS ::= BEGIN\nIMPORTS %s FROM SNMPv2-SMI OBJECT-GROUP, MODULE-COMPLIANCE FROM SNMPv2-CONF;\n%sEND\n'
+               % (', '.join(imports), body))
+        good = ('GOOD-MIB DEFINITIONS ::= BEGIN\nIMPORTS enterprises FROM SNMPv2-SMI;\n'
+                'goodRoot OBJECT IDENTIFIER ::= { enterprises 222 }\ngoodLeaf OBJECT IDENTIFIER ::= { goodRoot 1 }\nEND\n')
+        base = os.environ.get('VERIF_TMP') or ('/dev/shm' if os.path.isdir('/dev/shm') else None)
+        d = tempfile.mkdtemp(prefix='mcC18f', dir=base)
+        try:
+            comp = MibCompiler(env.fresh_parser('smiV2'), env.JsonCodeGen(), FileWriter(d).setOptions(suffix='.json'))
+            texts = env.base_texts()
+            texts['BAD-MIB'] = bad
+            texts['GOOD-MIB'] = good
+            comp.addSources(env.DictReader(texts))
+            comp.addSearchers(env.StubSearcher(*env.BASE_NAMES))
+            if case['how'] == 'earlier-call':
+                r0 = comp.compile('BAD-MIB', ignoreErrors=True)
+                res = comp.compile('GOOD-MIB', ignoreErrors=True)
+                res = dict(r0, **res)
+            else:
+                names = ['BAD-MIB', 'GOOD-MIB'] if case['how'] == 'same-call-bad-first' else ['GOOD-MIB', 'BAD-MIB']
+                res = comp.compile(*names, **{'ignoreErrors': True})
+            sig = 'C18|failed-then-good|%s|%s' % (case['f'], case['how'])
+            if res.get('BAD-MIB') != 'failed' or res.get('GOOD-MIB') != 'compiled':
+                raise core.InternalError('harness expectation: BAD-MIB failed, GOOD-MIB compiled; got %r / %r (%r)\n%s' % (
+                    res.get('BAD-MIB'), res.get('GOOD-MIB'), getattr(res.get('BAD-MIB'), 'error', None), bad))
+            vs = []
+            own = set([P.rsplit('.', 1)[0] + '.222', P.rsplit('.', 1)[0] + '.222.1'])
+            got = set(getattr(res['GOOD-MIB'], 'oids', ()) or ())
+            if got != own:
+                vs.append(('%s|summary-of-good-module-holds-other-oids' % sig, 'oids %r, declared %r' % (sorted(got), sorted(own))))
+            if list(getattr(res['GOOD-MIB'], 'compliance', ()) or ()):
+                vs.append(('%s|summary-of-good-module-holds-a-compliance-oid' % sig, repr(res['GOOD-MIB'].compliance)))
+            comp.buildIndex(res)
+            with open(os.path.join(d, 'index.json')) as f:
+                doc = json.load(f)
+            badroot = P.rsplit('.', 1)[0] + '.111'
+            for section in ('oids', 'compliance', 'identity', 'enterprise'):
+                for k, mods in (doc.get(section) or {}).items():
+                    if 'GOOD-MIB' in mods and (k == badroot or k.startswith(badroot + '.')):
+                        vs.append(('%s|good-module-listed-under-an-oid-of-the-failed-one|%s' % (sig, section), '%s: %r' % (k, mods)))
+            for o in own:
+                if not any(is_prefix(k, o) and 'GOOD-MIB' in v for k, v in (doc.get('oids') or {}).items()):
+                    vs.append(('%s|oid-not-covered' % sig, '%s not covered by %r' % (o, doc.get('oids'))))
+            return json.dumps(doc.get('oids'), sort_keys=True), vs, 3
+        finally:
+            shutil.rmtree(d, ignore_errors=True)
+
+
+FAMILIES = [Bfs(), Pairs(), BuildIndex(), TwoCompilers(), CompileThenIndex(), FailedThenGood()]
